@@ -234,6 +234,25 @@ pub fn gen_jitter_spec(rng: &mut Prng, prop: &str, allowed: &[CF], c16_bias: boo
         clock.readings.truncate(64);
         spec.variant = "jitter_history_long_haul".into();
     }
+    // a counter that freezes for a very long time inside one value and then resumes: 65 000 .. a few million
+    // readings (2^16 .. 2^20 measurements) without a tick - longer than any retry budget would tolerate
+    if spec.variant == "jitter_history" && rng.chance(1, 2500) {
+        let len = match rng.below(6) {
+            0 | 1 => rng.range(65_000, 70_000),
+            2 | 3 => rng.range(196_000, 200_000),
+            4 => rng.range(786_000, 1_200_000),
+            _ => rng.range(3_145_000, 3_200_000),
+        };
+        let rounds = rng.range(1, 3) as u8;
+        spec.rounds = Some(rounds);
+        spec.ops = vec![Op::U64, Op::U64, Op::U32, Op::U64];
+        // somewhere inside the second value
+        let at = (1 + 3 * (rounds as u64 + 1)) + rng.range(2, 3 * rounds as u64 + 3);
+        clock.freeze = Some((at, len));
+        clock.readings.truncate(200);
+        marks.clear();
+        spec.variant = "jitter_history_frozen_clock".into();
+    }
     spec.clock = Some(clock);
     spec.aux = encode_marks(&marks);
     // the process's logging configuration: Trace level enabled in one run out of six
@@ -293,7 +312,7 @@ fn candidates(m: &JitterModel, op: &Op, max_extra: u64) -> Result<Vec<(JitterMod
             Op::Fill(n) if *n > 256 => (*n as u64 / 8 + 1) * (1 + 3 * (mm.rounds as u64 + 1)),
             _ => 0,
         };
-        let cap = mm.reads() + max_extra + need;
+        let cap = mm.reads() + max_extra + need + mm.clock.spec.freeze_len();
         let out = match op {
             Op::U32 => Out::U32(mm.next_u32(cap).map_err(|_| ())?),
             Op::U64 => Out::U64(mm.next_u64(cap).map_err(|_| ())?),
